@@ -249,7 +249,8 @@ fn class_of(e: &discret::Error) -> &'static str {
                         "nohistory"
                     } else if m.contains("not authorised") || m.contains("not  authorised") {
                         "notauthorised"
-                    } else if m.contains("different size")
+                    } else if m.contains("duplicate")
+                        || m.contains("different size")
                         || m.contains("edge src")
                         || m.contains("edge source")
                         || m.contains("egde")
@@ -922,7 +923,8 @@ async fn step(
                 })();
                 match r {
                     Some(r) => {
-                        c.row_pool.insert(r.id, r);
+                        let pk = get_u(&kv, "p").unwrap_or(r.id);
+                        c.row_pool.insert(pk, r);
                         "q".into()
                     }
                     None => "bad-op".into(),
